@@ -89,9 +89,10 @@ def body_spherical(case):
     dreye = _dreye()
     X = np.asarray(case["X"], dtype=float)
     X0 = X.copy()
-    with calling("cartesian_to_spherical"):
+    form = (None, None, "list", "int")[int(abs(float(X.sum())) * 1e6) % 4 if np.isfinite(X.sum()) else 0]     # argument form derived from the case
+    with calling(f"cartesian_to_spherical (argument as {form or 'float array'})"):
         with np.errstate(all="ignore"):
-            Y = np.asarray(dreye.cartesian_to_spherical(X))
+            Y = np.asarray(dreye.cartesian_to_spherical(gens.as_form(X, form) if form else X))
     check(Y.shape == X.shape, "spherical:shape", f"shape {Y.shape} != {X.shape}")
     check(np.array_equal(X, X0), "spherical:input-modified", "input modified")
     check(not np.any(np.isnan(Y)), "spherical:nan", f"NaN in spherical coordinates for X={X[np.any(np.isnan(Y), axis=1)][:1].tolist()}")
